@@ -35,7 +35,8 @@ def recv_case(rng):
     return timeout, tail, chunks, need
 
 
-def run_recv(timeout, tail, chunks, need):
+def run_recv(timeout, tail, chunks, need, tick=None):
+    TICK = tick or globals()["TICK"]
     from pynetdicom import AE
     from pynetdicom.association import Association
     from pynetdicom.transport import AssociationSocket
@@ -90,7 +91,19 @@ def _bytes():
     p = _assoc_prim()
     p.called_ae_title = "ANY-SCP"
     rq = A_ASSOCIATE_RQ(p).encode()
-    return {"rq": rq, "ac": wire_bytes(3, False), "echo_rq": wire_bytes(10, False), "rel_rq": wire_bytes(12, False)}
+    # a C-ECHO-RQ whose command set is spread over several P-DATA-TF PDUs (peer maximum 30): stopping after some of
+    # them is a stall at a PDU boundary in the middle of a DIMSE message
+    from pynetdicom.dimse_messages import C_ECHO_RQ
+    from pynetdicom.dimse_primitives import C_ECHO
+    from pynetdicom.pdu import P_DATA_TF
+
+    c = C_ECHO()
+    c.MessageID = 1
+    c.AffectedSOPClassUID = "1.2.840.10008.1.1"
+    m = C_ECHO_RQ()
+    m.primitive_to_message(c)
+    frags = [P_DATA_TF(pd).encode() for pd in m.encode_msg(1, 30)]
+    return {"rq": rq, "ac": wire_bytes(3, False), "echo_rq": wire_bytes(10, False), "rel_rq": wire_bytes(12, False), "echo_frags": frags}
 
 
 def acceptor_scenario(phase, cut, dribble):
@@ -128,6 +141,9 @@ def acceptor_scenario(phase, cut, dribble):
             s.recv(4096)  # A-ASSOCIATE-AC
             if phase == "pdata":
                 send(B["echo_rq"][:cut])
+            elif phase == "msg":
+                for pdu in B["echo_frags"][:cut]:
+                    s.sendall(pdu)
             elif phase == "release":
                 send(B["rel_rq"][:cut])
             elif phase == "idle":
@@ -308,6 +324,8 @@ def scenarios(ctx):
     sc += [("acc", "rq", c, 0) for c in rq_cuts]
     sc += [("acc", "pdata", c, 0) for c in pd_cuts]
     sc += [("acc", "release", c, 0) for c in (1, 5, 9)]
+    nfr = len(B["echo_frags"])
+    sc += [("acc", "msg", c, 0) for c in ((1, nfr - 1) if ctx.quick else range(1, nfr))]
     sc += [("acc", "pdata", len(B["echo_rq"]) - 1, 0.05), ("acc", "rq", 40, 0.05)]  # dribble: 1 byte / 50 ms
     sc += [("tls", "silent"), ("tls", "partial-record")]
     sc += [("req", "silent", 0), ("req", "echo-silent", 0), ("req", "release-silent", 0)]
@@ -337,7 +355,14 @@ def run(ctx):
         # delays equal to the timeout are on the boundary of the tick model: skip the comparison there
         boundary = t is not None and any(abs(d - t) <= 1 for d, _ in ch)
         if real != mm and not boundary:
-            ctx.diff(case, real, mm)
+            # the model counts ticks, the run is real time: on a loaded machine a 30 ms tick can slip.  Repeat the
+            # case with a 4 x longer tick before calling it a disagreement.
+            for _ in range(2):
+                real = run_recv(t, tail, ch, need, tick=4 * TICK)
+                if real == mm:
+                    break
+            if real != mm:
+                ctx.diff(case, real, mm)
         if t is not None and real == ["blocked"]:
             ctx.fail("recv-with-timeout-blocked", f"recv({need}) with timeout still blocked: {case}", case)
     # (2)
@@ -349,6 +374,26 @@ def run(ctx):
         pool.terminate()
         pool.join()
     bound = 3 * T + 1.5
+
+    def suspicious(job, r):
+        if "harness_error" in r or r.get("hang") or r.get("leaks"):
+            return True
+        if job[0] == "tls":
+            return not (r.get("stalled_conn_dropped") and r.get("good_client_served") and r.get("shutdown_returned"))
+        return any(r.get(k, 0) > bound for k in ("associate_took", "call_took"))
+
+    # a stall that really blocks pynetdicom does so every time; a bound missed because 12 scenarios (or other
+    # processes) competed for the CPU does not: scenarios that look bad are run once more, alone
+    redo = [i for i, (job, r) in enumerate(zip(jobs, results)) if suspicious(job, r)]
+    if redo:
+        pool = mp.get_context("fork").Pool(processes=1, maxtasksperchild=1)
+        try:
+            for i in redo[:30]:
+                results[i] = pool.apply(_job, (jobs[i],))
+        finally:
+            pool.terminate()
+            pool.join()
+        ctx.extra["scenarios_rerun_alone"] = len(redo)
     for job, r in zip(jobs, results):
         case = ["stall", *job]
         if job[0] == "tls":
@@ -363,7 +408,7 @@ def run(ctx):
                     f"(bound {bound:.1f} s)", case)
             continue
         dribble = job[0] == "acc" and job[3] > 0
-        ctx.case(case, nontrivial=job[1] in ("rq", "pdata", "release", "ac", "echo-partial"), kind=f"{job[0]}:{job[1]}" + (":dribble" if dribble else ""))
+        ctx.case(case, nontrivial=job[1] in ("rq", "pdata", "msg", "release", "ac", "echo-partial"), kind=f"{job[0]}:{job[1]}" + (":dribble" if dribble else ""))
         if "harness_error" in r:
             ctx.diff(case, r["harness_error"], "n/a", "scenario harness failed")
             continue
